@@ -47,6 +47,8 @@ def _named_only(table: Table) -> Table:
 
 def _both(left: Term, right: Term) -> Term:
     # a condition need not be a Criterion (CASE, a parameter, a literal ...) and a plain Term has no "&" of its own
+    if isinstance(left, EmptyCriterion):
+        return right
     return Criterion.__and__(left, right)  # type:ignore[arg-type]
 
 
@@ -1266,6 +1268,8 @@ class QueryBuilder(Selectable, Term):  # type:ignore[misc]
 
     @builder
     def prewhere(self, criterion: Criterion) -> "Self":  # type:ignore[return]
+        if isinstance(criterion, EmptyCriterion):
+            return  # type:ignore[return-value]
         if not self._validate_table(criterion):
             self._foreign_table = True
 
